@@ -258,11 +258,14 @@ def match_known(mod, res):
     for f in listed:
         if f["shape"] == shape:
             return f
-    if isinstance(shape, dict) and set(shape) == {"shapes"} and len(shape["shapes"]) > 1:
-        # several known shapes on one input: EVERY one of them must be listed on its own (strict equality each)
+    if isinstance(shape, dict) and len(shape) == 1 and isinstance(next(iter(shape.values())), list) \
+            and len(next(iter(shape.values()))) > 1:
+        # several known shapes on one input ({"shapes": [a, b]}, {"leak": [s1, s2]}): EVERY one of them must be listed on its
+        # own (strict equality each)
+        key = next(iter(shape))
         parts = []
-        for s_ in shape["shapes"]:
-            m = [f for f in listed if f["shape"] == {"shapes": [s_]}]
+        for s_ in shape[key]:
+            m = [f for f in listed if f["shape"] == {key: [s_]}]
             if not m:
                 return None
             parts.append(m[0])
